@@ -1110,6 +1110,10 @@ class Envelope:
         if self.state is None:
             return self.fock.resize(new_dimensions)
 
+        # The support check below traces out the fock space, which reorders the
+        # product state; reorder first so that the layout used here stays valid
+        self.reorder(self.fock)
+
         reshape_shape = [-1, -1]
         assert isinstance(self.fock.dimensions, int)
         assert isinstance(self.fock.index, int)
